@@ -659,6 +659,14 @@ class Gen:
 
     def new_graph(self):
         rng = self.rng
+        save, self.p_invalid = self.p_invalid, self.p_invalid / 3
+        try:
+            return self._new_graph()
+        finally:
+            self.p_invalid = save
+
+    def _new_graph(self):
+        rng = self.rng
         g = len(self.real.graphs)  # a fresh graph accepts only unowned values / free nodes
         nodes = []
         for _ in range(rng.choice([0, 0, 1, 2])):
@@ -799,7 +807,7 @@ class Gen:
         ns = self.some_nodes(g)
         if m == "extend":
             return {"op": "extend", "g": g, "ns": ns}
-        a = self.node() if self.invalid() else self.node(lambda n: n.graph is G)
+        a = self.node() if self.rng.random() < 0.12 else self.node(lambda n: n.graph is G)
         if a is None:
             a = self.node()
         op = {"op": m, "g": g, "a": a, "ns": ns}
@@ -1139,24 +1147,24 @@ def small_alphabet(reduced: bool = False) -> list[dict]:
     def init(g, m, **kw):
         A.append({"op": "init", "g": g, "m": m, **kw})
 
-    for n, idx, v in [(0, 0, None), (0, 0, 2), (1, 1, 3), (1, 2, 2), (2, -1, 2)]:
+    for n, idx, v in [(0, 0, None), (0, 0, 2), (1, 1, 3), (1, 2, 2), (2, -1, 2)][: 3 if reduced else 5]:
         A.append({"op": "replaceInput", "n": n, "idx": idx, "v": v})
-    A += [{"op": "resizeInputs", "n": 1, "k": k} for k in (-1, 1, 3)]
+    A += [{"op": "resizeInputs", "n": 1, "k": k} for k in ((1,) if reduced else (-1, 1, 3))]
     A += [{"op": "resizeOutputs", "n": 0, "k": k} for k in (0, 2)]
-    for v, r in [(3, 2), (4, 2), (4, 5)]:
+    for v, r in [(3, 2), (4, 2), (4, 5)][: 2 if reduced else 3]:
         for rgo in (False, True):
             A.append({"op": "rauw", "v": v, "r": r, "rgo": rgo})
     for kind in ("inp", "out"):
         io(0, kind, "append", v=2)
-        io(0, kind, "append", v=5)
         io(0, kind, "extend", vs=[2, 4])
-        io(0, kind, "insert", i=0, v=2)
         io(0, kind, "pop", i=-1)
         io(0, kind, "setItem", i=0, v=2)
         io(0, kind, "setSlice", start=None, stop=None, step=None, vs=[2, 2])
         io(0, kind, "delItem", i=0)
-        io(0, kind, "clear")
         if not reduced:
+            io(0, kind, "append", v=5)
+            io(0, kind, "insert", i=0, v=2)
+            io(0, kind, "clear")
             io(0, kind, "pop", i=5)
             io(0, kind, "remove", v=0)
             io(0, kind, "remove", v=4)
@@ -1189,7 +1197,7 @@ def small_alphabet(reduced: bool = False) -> list[dict]:
         init(0, "setdefault", key="c", v=2)
         init(0, "register", v=1)
         init(0, "register", v=0)
-    for v, s_ in [(1, "a"), (1, None), (1, ""), (2, "b"), (0, "b"), (1, "q")]:
+    for v, s_ in [(1, "q"), (2, "b"), (1, ""), (1, "a"), (1, None), (0, "b")][: 3 if reduced else 6]:
         A.append({"op": "setName", "v": v, "s": s_})
     A += [
         {"op": "append", "g": 1, "n": 0},
